@@ -373,6 +373,7 @@ def run(ctx):
     # all methods agree with each other: follows from agreement with the common dense reference (checked per case)
     nret = sum(1 for t in clean if t["ev"][-1]["a"] == "ret")
     ctx.samples.append(clean[3])
+    ctx.replayed = nshape
     ctx.notes.update(executions=len(clean), returned=nret, warned=sum(1 for t in clean if t["ev"][-1]["a"] == "ret" and t["ev"][-1]["warned"]),
                      shape_cases=nshape, iter_events=sum(1 for t in clean for e in t["ev"] if e["a"] == "iter"))
     ctx.assumptions += [
